@@ -126,8 +126,17 @@ def discharge(obligations, timeout_s=60, jobs=16, seed=0, use_cvc5=True,
   _OBLS = obligations
   t0 = time.time()
   pending = []
+  results = None
+  if len(obligations) >= 24 and jobs > 1 and os.environ.get('VERIF_SERIAL') != '1':
+    # phase 1 in forked workers (the obligations are inherited through fork; only strings come back)
+    try:
+      ctx = multiprocessing.get_context('fork')
+      with ctx.Pool(min(jobs, 12)) as pool:
+        results = pool.map(_solve, [(i, first_ms, seed, single) for i in range(len(obligations))], chunksize=4)
+    except Exception:  # pylint: disable=broad-except
+      results = None
   for i in range(len(obligations)):
-    idx, status, dt, info, smt2 = _solve((i, first_ms, seed, single))
+    idx, status, dt, info, smt2 = results[i] if results is not None else _solve((i, first_ms, seed, single))
     o = obligations[i]
     o.status, o.seconds, o.backend = status, dt, 'z3-%s' % z3.get_version_string()
     o.model = info if status == 'sat' else None
